@@ -923,6 +923,8 @@ fn emit_item(
         "rewrites": rewrites,
         "template_line": spec.tmpl_line,
         "contract": fnv64(&norm(&spec.sig.iter().map(|l| match l.find("// @obl") { Some(i) => l[..i].to_string(), None => l.clone() }).collect::<Vec<_>>().join(" "))),
+        "contract_req": fnv64(&norm(&split_contract(&spec.sig).0)),
+        "contract_ens_lines": split_contract(&spec.sig).1.lines().map(|l| norm(l)).filter(|l| !l.is_empty()).map(|l| fnv64(&l)).collect::<Vec<_>>(),
     }));
 }
 
